@@ -140,6 +140,9 @@ func init() {
 		_ = json.Unmarshal(raw, &p)
 		return &vrt.Scenario{Name: "c20_op", Main: func() { opMain(p) }, FreeChoices: true, MaxSteps: 100000, NoTimerAlt: true}
 	}
+	scenarios["c20_seq"] = func(raw json.RawMessage) *vrt.Scenario {
+		return &vrt.Scenario{Name: "c20_seq", Main: seqMain, FreeChoices: true, MaxSteps: 100000, NoTimerAlt: true}
+	}
 	scenarios["c20_asyncop"] = func(raw json.RawMessage) *vrt.Scenario {
 		return &vrt.Scenario{Name: "c20_asyncop", Main: asyncOpMain, FreeChoices: true, MaxSteps: 100000, NoTimerAlt: true}
 	}
@@ -158,6 +161,7 @@ func init() {
 				out = append(out, Instance{Scenario: "c20_op", Params: mustJSON(OpParams{Op: op.name}), Bound: b, Shards: 2})
 			}
 			out = append(out, Instance{Scenario: "c20_asyncop", Params: mustJSON(struct{}{}), Bound: b + 1})
+			out = append(out, Instance{Scenario: "c20_seq", Params: mustJSON(struct{}{}), Bound: b, Shards: 4})
 			return out
 		},
 	})
@@ -293,19 +297,16 @@ func opMain(p OpParams) {
 				vrt.Failf("%s: reported success although request %s (%v) was not confirmed by the server (answer=%s err=%v finished=%v cancelled=%v)", desc, r.Kind, r.Note, r.Answer, r.Err, r.Finished != 0, r.Cancelled)
 			}
 		}
-	} else {
-		// 3. on a timeout of a silent server the pending operation was cancelled
-		if errors.Is(err, context.DeadlineExceeded) {
-			for _, r := range reqs {
-				if r.Answer == "drop" && r.Finished == 0 {
-					vrt.Failf("%s: timed out but the pending %s request was never cancelled", desc, r.Kind)
-				}
-			}
-		}
 	}
 	// 4. a completion arriving later neither blocks nor panics: drain and use every connection again
 	vrt.Sleep(2 * deadlineIn)
 	vrt.Quiesce()
+	// 3. no request of the call is left pending: a silent server's request was cancelled or timed out
+	for _, r := range reqs {
+		if r.Agent != "" && r.Answer != "dispatch-error" && r.Answer != "shutdown" && r.Finished == 0 {
+			vrt.Failf("%s: the %s request (%v) is still pending long after the call returned (%v): it was never cancelled", desc, r.Kind, r.Note, err)
+		}
+	}
 	ctx, cancel := vrtCtx(2 * time.Second)
 	_, gerr := couchbase.Get(ctx, client.GetMetaAgent(), "_default", "_default", []byte("exists2"))
 	cancel()
@@ -394,4 +395,94 @@ func asyncOpMain() {
 	vrt.Sleep(2 * time.Second)
 	vrt.Quiesce()
 	vrt.SetOutcome(fmt.Sprintf("%d:%v:%d", mode, err != nil, op.cancelled))
+}
+
+// seqMain: two operations in a row. The first one times out while its reply is still in flight (the
+// completion arrives late); the second one meets a silent server.  Whatever the first operation left
+// behind must not complete, unblock or confirm the second.
+func seqMain() {
+	resetGlobals()
+	o := EnvOpts{Vbs: 2}
+	c := NewCluster(&o)
+	o.defaults()
+	gocbcore.SimInstall(c)
+	cfg := o.config()
+	client := couchbase.NewClient(cfg)
+	if err := client.Connect(); err != nil {
+		panic(err)
+	}
+	if err := client.DcpConnect(true, false); err != nil {
+		panic(err)
+	}
+	c.Bucket(srcBucket).PutDoc("exists", []byte(`{"a":1}`))
+	if err := client.OpenStream(1, nil, &models.Offset{SnapshotMarker: &models.SnapshotMarker{}, LatestSeqNo: gocbcore.MaxSeq}, obsNop); err != nil {
+		panic(err)
+	}
+	lateBy := []time.Duration{0, time.Millisecond, 500 * time.Millisecond}[vrt.Choose(3, true, "late-by")]
+	first := vrt.Choose(3, true, "first-op")
+	second := vrt.Choose(4, true, "second-op")
+	const T = 2 * time.Second
+	phase := 1
+	c.Fault = func(r *gocbcore.SimRequest) gocbcore.SimAnswer {
+		switch phase {
+		case 1:
+			return gocbcore.SimAnswer{Kind: "delay", Delay: T + lateBy}
+		case 2:
+			return gocbcore.SimAnswer{Kind: "drop"}
+		}
+		return gocbcore.SimAnswer{}
+	}
+	vrt.Window(true)
+	ctx, cancel := vrtCtx(T)
+	var err1 error
+	switch first {
+	case 0:
+		err1 = couchbase.UpsertXattrs(ctx, client.GetMetaAgent(), "_default", "_default", []byte("exists"), "cbgo", []byte("{}"), 0)
+	case 1:
+		_, err1 = couchbase.Get(ctx, client.GetMetaAgent(), "_default", "_default", []byte("exists"))
+	case 2:
+		err1 = couchbase.DeleteDocument(ctx, client.GetMetaAgent(), "_default", "_default", []byte("exists"))
+	}
+	cancel()
+	vrt.Window(false)
+	_ = err1
+	// let the late completion of the first operation arrive
+	vrt.Sleep(time.Second)
+	vrt.Quiesce()
+	phase = 2
+	n0 := len(c.Requests)
+	t0 := vrt.NowNanos()
+	ctx2, cancel2 := vrtCtx(T)
+	var err2 error
+	limit := T
+	switch second {
+	case 0:
+		err2 = couchbase.CreateDocument(ctx2, client.GetMetaAgent(), "_default", "_default", []byte("k2"), []byte("{}"), 0, 0)
+	case 1:
+		_, err2 = couchbase.Get(ctx2, client.GetMetaAgent(), "_default", "_default", []byte("exists"))
+	case 2:
+		err2 = client.CloseStream(1)
+		limit = 60 * time.Second
+	case 3:
+		_, err2 = client.GetVBucketSeqNos(false)
+		limit = 60 * time.Second
+	}
+	cancel2()
+	took := time.Duration(vrt.NowNanos() - t0)
+	desc := fmt.Sprintf("first=%d (reply %v after its deadline) second=%d", first, lateBy, second)
+	if err2 == nil {
+		vrt.Failf("%s: the second operation reported success although the server never answered it", desc)
+	}
+	if took > limit+10*time.Millisecond {
+		vrt.Failf("%s: the second operation returned after %v, its deadline is %v", desc, took, limit)
+	}
+	for _, r := range c.Requests[n0:] {
+		if r.Answer == "drop" && r.Finished == 0 {
+			vrt.Failf("%s: the pending %s request of the second operation was never cancelled", desc, r.Kind)
+		}
+	}
+	phase = 3
+	vrt.Sleep(61 * time.Second)
+	vrt.Quiesce()
+	vrt.SetOutcome(fmt.Sprintf("%s err1=%v err2=%v", desc, err1 != nil, err2 != nil))
 }
